@@ -250,6 +250,53 @@ PROPS = {
         explanation='append, extend, insert (any index), remove, pop, reverse, clear, indexing, slicing, __str__ and the '
                     'constructor are verified against list semantics on the view; a rejected string leaves the list unchanged; '
                     'BFS against a Python list (duplicates included) is the bounded cross-check'),
+    'C03': dict(
+        select=lambda c: c.qual in ('data.TexNode.find_all', 'data.TexNode.find', 'data.TexNode.count', 'data.TexNode.__getattr__',
+                                    'data.TexNode.__match__', 'data.TexExpr.__match__', 'data.TexEnv.__match__',
+                                    'data.TexNode.descendants', 'data.TexNode.__descendants', 'data.TexNode.contents',
+                                    'data.TexNode.children', 'data.TexExpr.all', 'data.TexExpr.contents', 'data.TexExpr.children')
+        or c.key == 'data.TexNode.__init__[wrap]',
+        level='proof', bounded=['tree.py'],
+        lemmas=['M5 (definition + induction on the tree, not mechanised): DESC(n), the sequence defined by '
+                'DESC(n) = wrap(contents(n)) ++ concat(DESC(c) for c in children(n)), enumerates every node below n in the '
+                'environment bodies, list items, math regions, brace groups and argument groups exactly once (trees are finite and '
+                'share no sub-trees)',
+                'L-filter / L-map (induction over the fold, not mechanised): an element of a filter fold satisfies its predicate; a map '
+                'fold keeps the length and is pointwise',
+                'L-name (character level): a non-empty string of ASCII letters and * contains no brace/bracket and does not start '
+                'with a delimiter literal'],
+        trusted_base=['TexNode wrappers are modelled as values (expression, node reached from): the views build fresh wrappers and '
+                      'never mutate them after the parent assignment, which the executor sees',
+                      'fold equations of CONTF, ARGC, KIDS, NWRAP, NSUB, DESCS, FOUND are definitions supplied at the touched prefixes',
+                      'builtin filter() and itertools.chain(a, *[f(c) for c in cs]) are given their list semantics by hooks that '
+                      'evaluate the function on an arbitrary element (contracts/views_c.py filter_hook, chain_comp_hook)'],
+        assumptions=['T-finite: expression trees are finite and acyclic (children lie strictly below their parent): termination '
+                     'measure of descendants/text and the each-once reading of DESC; true of parsed documents, an edit could break it',
+                     'no extra attribute filters (**attrs empty); the attrs dictionary mutated by TexExpr.__match__ is rebound locally, '
+                     'its aliasing with the caller\'s dictionary is not modelled (the stored value is the same name every time)',
+                     'a list of names contains neither "{" nor "["',
+                     'the plain-name clause is stated for the classes the parser creates (commands, named environments, groups, math)'],
+        explanation='find_all is the filter of the descendant sequence by the match predicate (loop invariant over the real loop); '
+                    'find/count/attribute access are its first element/length; the match predicates of TexExpr/TexEnv are verified '
+                    'against MATCH; descendants against the transitive-closure equation with a termination measure'),
+    'C04': dict(
+        select=lambda c: c.qual in ('data.TexExpr.all', 'data.TexExpr.contents', 'data.TexExpr.children', 'data.TexNode.all',
+                                    'data.TexNode.contents', 'data.TexNode.children', 'data.TexNode.__iter__',
+                                    'data.TexNode.__getitem__', 'data.TexNode.descendants', 'data.TexNode.__descendants',
+                                    'data.TexNode.text', 'tex.read', '__init__.TexSoup')
+        or c.key == 'data.TexNode.__init__[wrap]',
+        level='proof', bounded=['tree.py'],
+        lemmas=['M5 (see C03): DESC is the transitive closure of contents, every node once',
+                'L-filter / L-map (see C03)',
+                'root: the root has no arguments, so its complete content list is its body, whose texts concatenate to the source '
+                'by tex.read#exact (C01; under C01\'s tightness hypothesis and open findings)'],
+        trusted_base=['TexNode wrappers as values (see C03)', 'fold equations are definitions (see C03)'],
+        assumptions=['T-finite (see C03)', 'parent is recorded as the node value the element was reached from; walking parents to the '
+                     'root follows from the datatype (a sub node carries its parent term)'],
+        explanation='every view is verified against a fold over the expression\'s argument groups and body: contents = all without '
+                    'whitespace-only text (TexText unwrapped), children = commands/environments of contents, node views = the '
+                    'expression views wrapped with parent self, iteration/indexing = contents, descendants = closure equation, '
+                    'text = text leaves in order'),
     'C05': dict(
         select=lambda c: c.qual.startswith('data.TexExpr.') or c.qual.startswith('data.TexArgs.') or c.qual in ('data.TexCmd.__str__', 'data.TexEnv.__str__'),
         level='other', bounded=['edits.py'],
